@@ -1,12 +1,396 @@
-/-! Executable model for property C01 (core-only).  Not built yet: the driver answers
-    `unimplemented` so that a check of this property cannot pass by accident. -/
+import FpgoVerif.Model.C01Maybe
+/-! C01 — line protocol over the model of `Model/C01Maybe.lean`: token decoding, canonical rendering, the
+    operation interpreter (`handle`) and the spec-level oracle (`judge`).
+    Case line:  `<ctor> <ty> <value> <fallback>: <op> ; <op> ; …`   (see harness/c01.go). -/
+
 namespace FpgoVerif.C01
 
-/-- one protocol case line in, one canonical observation line out -/
-def handle (_line : String) : String := "unimplemented"
+local notation "Heap" => List GoVal
 
-/-- spec-level oracle: given the case line and the observation printed by the real code, decide
-    whether the *property* is violated (`violation <why>`) or not (`allowed <why>`). -/
-def judge (_line _impl : String) : String := "violation model-and-implementation-disagree"
+/-! ### names -/
+
+def intKName : IntK → String
+  | .int => "i" | .int8 => "i8" | .int16 => "i16" | .int32 => "i32" | .int64 => "i64"
+  | .uint => "u" | .uint8 => "u8" | .uint16 => "u16" | .uint32 => "u32" | .uint64 => "u64" | .uintptr => "up"
+
+def intKOfName? : String → Option IntK
+  | "i" => some .int | "i8" => some .int8 | "i16" => some .int16 | "i32" => some .int32 | "i64" => some .int64
+  | "u" => some .uint | "u8" => some .uint8 | "u16" => some .uint16 | "u32" => some .uint32 | "u64" => some .uint64
+  | "up" => some .uintptr | _ => none
+
+def tyName : Ty → String
+  | .bool => "b" | .int k => intKName k | .f32 => "f32" | .f64 => "f64" | .string => "s" | .struct => "st"
+  | .slice => "sl" | .map => "mp" | .func => "fn" | .chan => "ch" | .ptr t => "p:" ++ tyName t | .any => "any"
+  | .maybe t => "M:" ++ tyName t | .someDef t => "some:" ++ tyName t | .noneDef => "noneDef"
+
+/-- type name → type, from the `:`-separated components -/
+def tyOfParts : List String → Option Ty
+  | [] => none
+  | ["b"] => some .bool | ["f32"] => some .f32 | ["f64"] => some .f64 | ["s"] => some .string | ["st"] => some .struct
+  | ["sl"] => some .slice | ["mp"] => some .map | ["fn"] => some .func | ["ch"] => some .chan | ["any"] => some .any
+  | [x] => (intKOfName? x).map Ty.int
+  | "p" :: rest => (tyOfParts rest).map Ty.ptr
+  | "M" :: rest => (tyOfParts rest).map Ty.maybe
+  | _ => none
+
+def tyOfName? (s : String) : Option Ty := tyOfParts (s.splitOn ":")
+
+def goKindName : Kind → String
+  | .invalid => "invalid" | .bool => "bool"
+  | .int .int => "int" | .int .int8 => "int8" | .int .int16 => "int16" | .int .int32 => "int32" | .int .int64 => "int64"
+  | .int .uint => "uint" | .int .uint8 => "uint8" | .int .uint16 => "uint16" | .int .uint32 => "uint32"
+  | .int .uint64 => "uint64" | .int .uintptr => "uintptr"
+  | .f32 => "float32" | .f64 => "float64" | .string => "string" | .struct => "struct" | .slice => "slice"
+  | .map => "map" | .func => "func" | .chan => "chan" | .ptr => "ptr" | .iface => "interface"
+
+def allKinds : List Kind :=
+  [.invalid, .bool, .int .int, .int .int8, .int .int16, .int .int32, .int .int64, .int .uint, .int .uint8, .int .uint16,
+   .int .uint32, .int .uint64, .int .uintptr, .f32, .f64, .string, .struct, .slice, .map, .func, .chan, .ptr, .iface]
+
+def kindOfName? (s : String) : Option Kind := allKinds.find? (fun k => goKindName k == s)
+
+/-! ### decoding value tokens -/
+
+def inner (tok : String) (pre : Nat) : String := ((tok.drop pre).dropEnd 1).toString
+
+/-- static type of a value token -/
+def tokTy : Nat → String → Option Ty
+  | 0, _ => none
+  | f + 1, tok =>
+    if tok == "nil" then some .any
+    else if tok == "none" || tok.startsWith "just(" || tok.startsWith "ja(" then some (.maybe .any)
+    else if tok.startsWith "jg(" then (tokTy f (inner tok 3)).map Ty.maybe
+    else if tok.startsWith "p(" then (tokTy f (inner tok 2)).map Ty.ptr
+    else if tok.startsWith "np:" then (tyOfName? (tok.drop 3).toString).map Ty.ptr
+    else match tok.splitOn ":" with
+      | x :: _ => tyOfName? x
+      | _ => none
+
+def payload (tok : String) : String :=
+  match tok.splitOn ":" with
+  | _ :: p :: _ => p
+  | _ => ""
+
+/-- token → value (allocating pointees); nested Maybe tokens are built with the model's own constructors -/
+def decode : Nat → Heap → String → R (Heap × GoVal)
+  | 0, _, _ => throw "decode: out of fuel"
+  | f + 1, h, tok =>
+    if tok == "nil" then pure (h, .nil)
+    else if tok == "none" then pure (h, .none)
+    else if tok.startsWith "just(" then do
+      let (h, v) ← decode f h (inner tok 5)
+      let m ← just v
+      pure (h, m.toVal)
+    else if tok.startsWith "ja(" then do
+      let (h, v) ← decode f h (inner tok 3)
+      let m ← justGenerics .any v
+      pure (h, m.toVal)
+    else if tok.startsWith "jg(" then do
+      let (h, v) ← decode f h (inner tok 3)
+      match tokTy (f + 1) (inner tok 3) with
+      | some T =>
+        let m ← justGenerics T v
+        pure (h, m.toVal)
+      | none => throw "decode: bad type"
+    else if tok.startsWith "p(" then do
+      let (h, v) ← decode f h (inner tok 2)
+      match tokTy (f + 1) (inner tok 2) with
+      | some t => pure (h ++ [v], .ptr t (some h.length))
+      | none => throw "decode: bad type"
+    else if tok.startsWith "np:" then
+      match tyOfName? (tok.drop 3).toString with
+      | some t => pure (h, .ptr t none)
+      | none => throw "decode: bad type"
+    else
+      let p := payload tok
+      match (tok.splitOn ":").head? with
+      | some "b" => pure (h, .bool (p == "1"))
+      | some "f32" => pure (h, .f32 (p.drop 1).toString)
+      | some "f64" => pure (h, .f64 (p.drop 1).toString)
+      | some "s" => pure (h, .str (p.drop 1).toString)
+      | some "st" => pure (h, .struct p.toInt!)
+      | some "sl" => pure (h, .slice (if p == "nil" then .nil else if p == "e" then .empty else .elems p.toInt!))
+      | some "mp" => pure (h, .map (if p == "nil" then none else some p.toInt!))
+      | some "fn" => pure (h, .func (if p == "nil" then none else some p.toInt!))
+      | some "ch" => pure (h, .chan (if p == "nil" then none else some p.toInt!))
+      | some k =>
+        match intKOfName? k with
+        | some ik => pure (h, .int ik p.toInt!)
+        | none => throw "decode: bad token"
+      | none => throw "decode: bad token"
+
+/-! ### canonical rendering (identical to harness/c01.go) -/
+
+def bstr (b : Bool) : String := if b then "t" else "f"
+
+def render (h : Heap) : Nat → GoVal → String
+  | 0, _ => "?fuel"
+  | f + 1, v =>
+    match v with
+    | .nil => "nil"
+    | .bool b => if b then "b:1" else "b:0"
+    | .int k n => intKName k ++ ":" ++ toString n
+    | .f32 b => "f32:x" ++ b
+    | .f64 b => "f64:x" ++ b
+    | .str hx => "s:x" ++ hx
+    | .struct k => "st:" ++ toString k
+    | .slice .nil => "sl:nil"
+    | .slice .empty => "sl:e"
+    | .slice (.elems k) => "sl:" ++ toString k
+    | .map none => "mp:nil"
+    | .map (some k) => "mp:" ++ toString k
+    | .func none => "fn:nil"
+    | .func (some k) => "fn:" ++ toString k
+    | .chan none => "ch:nil"
+    | .chan (some k) => "ch:" ++ toString k
+    | .ptr t none => "np:" ++ tyName t
+    | .ptr _ (some a) =>
+      match h[a]? with
+      | some x => "p(" ++ render h f x ++ ")"
+      | none => "p(?dangling)"
+    | .some T r n p => "M[" ++ tyName T ++ "](" ++ bstr n ++ bstr p ++ " " ++ render h f r ++ ")"
+    | .none => "None"
+
+def rnd (h : Heap) (v : GoVal) : String := render h (h.length + 64) v
+
+/-- identity of a pointer result relative to the constructor argument and the fallback / destination -/
+def ident (res v fb : GoVal) : String :=
+  match res with
+  | .ptr _ (some _) => if res = v then "same" else if res = fb then "fb" else "fresh"
+  | _ => "-"
+
+def showVal (h : Heap) (r v fb : GoVal) : String := rnd h r ++ " " ++ ident r v fb
+
+def showMaybe (h : Heap) (m : MaybeV) (v fb : GoVal) : String := rnd h m.toVal ++ " " ++ ident m.unwrap v fb
+
+/-! ### operations -/
+
+structure Env where
+  h : Heap
+  m : MaybeV
+  T : Ty
+  v : GoVal
+  fb : GoVal
+  fbtok : String
+
+abbrev L := StateT (List GoVal) R
+
+/-- the callbacks of the harness: each records its argument, then returns a Maybe -/
+def flatFn (T : Ty) (fb : GoVal) (name : String) : Option (GoVal → L MaybeV) :=
+  let rec_ (x : GoVal) : L Unit := modify (· ++ [x])
+  match name with
+  | "ret" => some fun x => do rec_ x; liftM (justGenerics T x)
+  | "k" => some fun x => do rec_ x; liftM (justGenerics T fb)
+  | "just" => some fun x => do rec_ x; liftM (just x)
+  | "none" => some fun x => do rec_ x; pure .none
+  | "nest" => some fun x => do
+      rec_ x
+      let i ← liftM (just x)
+      liftM (just i.toVal)
+  | _ => none
+where liftM {α} (r : R α) : L α := fun s => r.map (·, s)
+
+def convName? (op : String) : Bool := allConversions.contains op
+
+def splitOp (op : String) : String × String :=
+  match op.splitOn ":" with
+  | [] => ("", "")
+  | n :: rest => (n, ":".intercalate rest)
+
+def showArgs (e : Env) (log : List GoVal) : String :=
+  ",".intercalate (log.map fun x => showVal e.h x e.v e.fb)
+
+def runOp (e : Env) (op : String) : R (Env × String) := do
+  let (name, arg) := splitOp op
+  let m := e.m
+  match name with
+  | "IsNil" => pure (e, bstr m.isNil)
+  | "IsPresent" => pure (e, bstr m.isPresent)
+  | "IsValid" => pure (e, bstr m.isValid)
+  | "IsPtr" => pure (e, bstr m.isPtr)
+  | "Kind" => pure (e, "K:" ++ goKindName m.kind)
+  | "Type" => pure (e, "T:" ++ (match m.type with | some t => tyName t | none => "nil"))
+  | "IsType" =>
+    if arg == "own" then pure (e, bstr (m.isType (typeOf? e.v)))
+    else if arg == "nil" then pure (e, bstr (m.isType none))
+    else match tyOfName? arg with
+      | some t => pure (e, bstr (m.isType (some t)))
+      | none => pure (e, "bad-op")
+  | "IsKind" =>
+    if arg == "own" then pure (e, bstr (m.isKind (valueOf e.v).kind))
+    else match kindOfName? arg with
+      | some k => pure (e, bstr (m.isKind k))
+      | none => pure (e, "bad-op")
+  | "Or" => pure (e, showVal e.h (m.or e.fb) e.v e.fb)
+  | "Let" => pure (e, "n=" ++ toString (m.letRun (· + 1) 0))
+  | "Unwrap" => pure (e, showVal e.h m.unwrap e.v e.fb)
+  | "UnwrapInterface" => pure (e, showVal e.h m.unwrapInterface e.v e.fb)
+  | "ToString" => pure (e, match m.toStr e.h with | some s => "S:" ++ s | none => "S:*")
+  | "ToPtr" => do
+    let (h, p) ← m.toPtr e.h
+    match p with
+    | .ptr _ (some a) =>
+      match h[a]? with
+      | some r => pure ({ e with h := h }, "ptr(" ++ rnd h r ++ ") " ++ ident r e.v e.fb)
+      | none => pure ({ e with h := h }, "ptr(?dangling)")
+    | _ => pure ({ e with h := h }, "nilptr")
+  | "ToMaybe" => pure (e, showMaybe e.h m.toMaybe e.v e.fb)
+  | "Clone" => do
+    let (h, r) ← m.clone e.h
+    pure ({ e with h := h }, showMaybe h r e.v e.fb)
+  | "CloneTo" => do
+    let (h0, dest) ← (if arg == "fb" then decode (e.fbtok.length + 1) e.h e.fbtok else pure (e.h, zeroOf e.T))
+    let (h, r) ← cloneTo h0 e.T m dest
+    pure ({ e with h := h }, showMaybe h r e.v dest ++ " dest=" ++ rnd h dest)
+  | "Just" => do
+    let x := if arg == "v" then e.v else if arg == "fb" then e.fb else .nil
+    let r ← m.flatMap (fun _ => just x)     -- `Just` ignores its receiver
+    pure (e, showMaybe e.h r e.v e.fb)
+  | "FlatMap" =>
+    match flatFn e.T e.fb arg with
+    | none => pure (e, "bad-op")
+    | some f => do
+      let (r, log) ← (m.flatMap f).run []
+      pure (e, "c=" ++ toString log.length ++ " a=[" ++ showArgs e log ++ "] r=" ++ showMaybe e.h r e.v e.fb)
+  | "Assoc" =>
+    match arg.splitOn ":" with
+    | [fn, gn] =>
+      match flatFn e.T e.fb fn, flatFn e.T e.fb gn with
+      | some f, some g => do
+        let (l, la) ← (do let r1 ← m.flatMap f; r1.flatMap g : L MaybeV).run []
+        let (r, ra) ← (m.flatMap (fun x => do let r1 ← f x; r1.flatMap g) : L MaybeV).run []
+        pure (e, "L=" ++ showMaybe e.h l e.v e.fb ++ " [" ++ showArgs e la ++ "] R=" ++ showMaybe e.h r e.v e.fb
+                 ++ " [" ++ showArgs e ra ++ "]")
+      | _, _ => pure (e, "bad-op")
+    | _ => pure (e, "bad-op")
+  | _ =>
+    if convName? name then
+      pure (e, match m.conv name with | .errNil => "errnil" | .other => "other")
+    else pure (e, "bad-op")
+
+def runOps (e : Env) : List String → List String → List String
+  | [], acc => acc.reverse
+  | op :: rest, acc =>
+    match runOp e op with
+    | .ok (e', o) => runOps e' rest (o :: acc)
+    | .error _ => runOps e rest ("panic" :: acc)
+
+structure Case where
+  ctor : String
+  c : Spec.Ctor
+  T : Ty              -- type parameter of the Maybe
+  vtok : String
+  fbtok : String
+  ops : List String
+
+def parseCase (line : String) : Option Case :=
+  match line.splitOn ": " with
+  | head :: rest =>
+    let body := ": ".intercalate rest
+    match (head.splitOn " ").filter (· ≠ "") with
+    | [ctor, ty, vtok, fbtok] =>
+      let ops := ((body.splitOn ";").map (fun t => t.trimAscii.toString)).filter (· ≠ "")
+      match ctor, tyOfName? ty with
+      | "just", some _ => some ⟨ctor, .just, .any, vtok, fbtok, ops⟩
+      | "ja", some _ => some ⟨ctor, .generics .any, .any, vtok, fbtok, ops⟩
+      | "jg", some T => some ⟨ctor, .generics T, T, vtok, fbtok, ops⟩
+      | _, _ => none
+    | _ => none
+  | _ => none
+
+def buildEnv (cs : Case) : R Env := do
+  let (h, v) ← decode (cs.vtok.length + 1) [] cs.vtok
+  let m ← mk cs.c v
+  let (h, fb) ← decode (cs.fbtok.length + 1) h cs.fbtok
+  pure ⟨h, m, cs.T, v, fb, cs.fbtok⟩
+
+/-- protocol entry point -/
+def handle (line : String) : String :=
+  match parseCase line with
+  | none => "bad-case"
+  | some cs =>
+    match buildEnv cs with
+    | .error _ => " | ".intercalate (cs.ops.map fun _ => "panic")
+    | .ok e => " | ".intercalate (runOps e cs.ops [])
+
+/-! ### spec-level oracle: the property's own statement evaluated on the decoded value -/
+
+/-- how the Maybe the property describes for `(c, v)` is printed -/
+def specShowMaybe (h : Heap) (c : Spec.Ctor) (v fb : GoVal) (identOverride : Option String) : String :=
+  let idt := identOverride.getD (ident (Spec.wrapped c v) v fb)
+  match c with
+  | .just => if Spec.absent v then "None -"
+             else "M[any](" ++ bstr false ++ bstr true ++ " " ++ rnd h v ++ ") " ++ idt
+  | .generics T => "M[" ++ tyName T ++ "](" ++ bstr (Spec.absent v) ++ bstr (!Spec.absent v) ++ " " ++ rnd h v ++ ") " ++ idt
+
+/-- expected observation of an op according to the property (`none`: the property only demands "no panic") -/
+def specObs (e : Env) (c : Spec.Ctor) (op : String) : Option String :=
+  let (name, arg) := splitOp op
+  let v := e.v
+  let ab := Spec.absent v
+  match name with
+  | "IsNil" => some (bstr (Spec.isNil v))
+  | "IsPresent" => some (bstr (Spec.isPresent v))
+  | "Or" => some (showVal e.h (Spec.or v e.fb) v e.fb)
+  | "Let" => some ("n=" ++ toString (Spec.letCount v))
+  | "UnwrapInterface" => some (showVal e.h (Spec.unwrapInterface v) v e.fb)
+  | "Type" => some ("T:" ++ (match Spec.type v with | some t => tyName t | none => "nil"))
+  | "ToString" => if ab then some ("S:" ++ Spec.nilString) else none
+  | "ToMaybe" =>
+    if ab then some (specShowMaybe e.h c v e.fb none)
+    else match Spec.innerMaybe? c.param v with
+      | some m' => some (showMaybe e.h m' v e.fb)
+      | none => some (specShowMaybe e.h c v e.fb none)
+  | "Clone" =>
+    match v with
+    | .ptr _ (some _) => some (specShowMaybe e.h c v e.fb (some "fresh"))
+    | _ => some (specShowMaybe e.h c v e.fb none)
+  | "FlatMap" =>
+    match flatFn c.param e.fb arg with
+    | none => none
+    | some f =>
+      match (f (Spec.wrapped c v)).run [] with
+      | .ok (r, log) => some ("c=1 a=[" ++ showArgs e log ++ "] r=" ++ showMaybe e.h r v e.fb)
+      | .error _ => none
+  | _ =>
+    if convName? name then some (match Spec.conv v with | .errNil => "errnil" | .other => "other") else none
+
+def assocAgrees (obs : String) : Bool :=
+  match obs.splitOn " R=" with
+  | [l, r] => l == "L=" ++ r
+  | _ => false
+
+def judgeOps (e : Env) (c : Spec.Ctor) : List String → List String → Option String
+  | [], _ => none
+  | _ :: _, [] => some "fewer observations than operations"
+  | op :: ops, o :: obs =>
+    if o == "panic" || o == "hang" || o == "crash" then some (op ++ ": observer panicked (no observer may panic for any v)")
+    else
+      let bad :=
+        if (splitOp op).1 == "Assoc" then
+          if assocAgrees o then none else some (op ++ ": m.FlatMap(f).FlatMap(g) and m.FlatMap(x => f(x).FlatMap(g)) differ: " ++ o)
+        else match specObs e c op with
+          | some exp => if exp == o then none else some (op ++ ": property demands '" ++ exp ++ "', implementation gave '" ++ o ++ "'")
+          | none => none
+      match bad with
+      | some b => some b
+      | none =>
+        -- keep the model's heap in step (Clone/ToPtr allocate); the spec itself only reads `v`'s pointees
+        match runOp e op with
+        | .ok (e', _) => judgeOps e' c ops obs
+        | .error _ => judgeOps e c ops obs
+
+def judge (line impl : String) : String :=
+  match parseCase line with
+  | none => "violation bad-case"
+  | some cs =>
+    match buildEnv cs with
+    | .error _ => "violation model cannot build the value"
+    | .ok e =>
+      if impl == "hang" || impl == "crash" || impl == "panic" then "violation the case did not complete: " ++ impl
+      else
+        match judgeOps e cs.c cs.ops (impl.splitOn " | ") with
+        | some why => "violation " ++ why
+        | none => "allowed every observer named by the property agrees with absent(v); the difference is outside the property"
 
 end FpgoVerif.C01
